@@ -1286,3 +1286,57 @@ def role_bindings(ctx: Context, rule: str) -> None:
     want_inv = {f"self.{g}.{c}.name" for g in ('face', 'node', 'left', 'back') for c in ('longitude', 'latitude')}
     ctx.check(rule, names == want_inv, "the Arakawa C inventory names the longitude and the latitude of the face, node, left and back grids", inv, inv.node,
               construct=f"missing {sorted(want_inv - names) or 'none'}; other {sorted(names - want_inv) or 'none'}")
+
+
+SHOC_TIME_NAMES = {'emsarray.conventions.shoc.ShocStandard': 't', 'emsarray.conventions.shoc.ShocSimple': 'time'}
+
+
+def shoc_time_names(ctx: Context, rule: str) -> None:
+    """The SHOC conventions know their time variable by name (`t` in the standard format, `time` in the simple one): the name looked up is
+    the format's.  With another name the lookup refuses, the save treats the refusal as "no time variable" and leaves the units unfixed."""
+    from .common import Undecided, fold_function, names_deciding
+    p = ctx.p
+    for qual, want in sorted(SHOC_TIME_NAMES.items()):
+        ci = p.classes.get(qual)
+        fi = p.resolve_method(ci, 'time_coordinate') if ci is not None else None
+        got, why = None, 'no time_coordinate override'
+        if fi is not None and not fi.is_abstract and fi.qualname.startswith('emsarray.conventions.shoc.'):
+            subs = [n for n in ast.walk(fi.node) if isinstance(n, ast.Subscript) and norm_text(n.value) == 'self.dataset' and isinstance(n.ctx, ast.Load)]
+            flow = ctx.flow(fi)
+            vals = {const_value(flow.resolve(s_.slice), None) for s_ in subs}
+            got = vals.pop() if len(vals) == 1 else None
+            why = f"{len(subs)} lookup(s) in self.dataset"
+        ctx.check(rule, got == want, f"{qual.rsplit('.', 1)[-1]}.time_coordinate looks up the format's time variable {want!r}", fi, fi.node if fi is not None else None,
+                  construct=f"time variable looked up: {got!r} ({why})")
+
+
+def arakawa_topology_roles(ctx: Context, rule: str) -> None:
+    """Each Arakawa C grid is built from the pair of names listed for its kind, the first as latitude and the second as longitude (the tables
+    list y before x): `ArakawaCGridTopology(dataset, latitude=coords[0], longitude=coords[1]) for kind, coords in coordinate_names.items()`."""
+    fi = ctx.func('emsarray.conventions.arakawa_c.ArakawaC._topology_for_grid_kind')
+    flow = ctx.flow(fi)
+    calls = [c for c in calls_in(fi, nested=True) if (callee(ctx, fi, c) or '').endswith('ArakawaCGridTopology')]
+    comps = [n for n in ast.walk(fi.node) if isinstance(n, (ast.DictComp, ast.GeneratorExp, ast.ListComp)) and len(n.generators) == 1]
+    ok, why = False, 'no ArakawaCGridTopology(...) construction over coordinate_names'
+    if len(calls) == 1 and comps:
+        c = calls[0]
+        gen = next((g for g in comps if any(x is c for x in ast.walk(g))), None)
+        if gen is not None and norm_text(gen.generators[0].iter) in ('self.coordinate_names.items()',) and isinstance(gen.generators[0].target, ast.Tuple) and len(gen.generators[0].target.elts) == 2:
+            k_, v_ = (norm_text(e) for e in gen.generators[0].target.elts)
+            lat = arg_or_kw(c, 1, 'latitude') if any(k.arg == 'latitude' for k in c.keywords) else None
+            lon = arg_or_kw(c, 2, 'longitude') if any(k.arg == 'longitude' for k in c.keywords) else None
+            ok = lat is not None and lon is not None and norm_text(lat) == f"{v_}[0]" and norm_text(lon) == f"{v_}[1]" and (not isinstance(gen, ast.DictComp) or norm_text(gen.key) == k_)
+            why = f"latitude={norm_text(lat) if lat is not None else '?'}, longitude={norm_text(lon) if lon is not None else '?'} for {k_}, {v_} in coordinate_names.items()"
+    ctx.check(rule, ok, "an Arakawa C grid takes the first name listed for its kind as latitude and the second as longitude, and is filed under that kind", fi, calls[0] if calls else fi.node, construct=why)
+    # the tables list (y, x): the latitude variable first
+    for qual in ('emsarray.conventions.shoc.ShocStandard',):
+        ci = ctx.p.classes.get(qual)
+        tab = ctx.p.resolve_class_attr(ci, 'coordinate_names') if ci is not None else None
+        v = tab[1] if tab is not None else None
+        rows = []
+        if isinstance(v, ast.Dict):
+            for val in v.values:
+                if isinstance(val, ast.Tuple) and len(val.elts) == 2:
+                    rows.append((const_value(val.elts[0], ''), const_value(val.elts[1], '')))
+        ctx.check(rule, len(rows) == 4 and all(a.startswith('y_') and b.startswith('x_') and a[2:] == b[2:] for a, b in rows),
+                  "the SHOC standard table names (y_<grid>, x_<grid>) for each of its four grids: latitude first", None, v, construct=f"coordinate_names rows: {rows}")
